@@ -133,3 +133,15 @@ fn c17_merge_of_long_runs_of_large_values_stays_finite() {
     c.merge(&cb);
     assert!(c.population_variance_x().is_finite() && c.population_variance_y().is_finite());
 }
+
+// C17 (known finding, not repaired): WeightedMean::merge with subnormal weight·value products.
+#[test]
+#[ignore = "known finding: weight_sum * average underflows in WeightedMean::merge"]
+fn c17_known_finding_weighted_merge_underflow() {
+    use average::Merge;
+    let mut a = WeightedMean::new();
+    a.add(2.5e-308, 1e-6);
+    let b = a.clone();
+    a.merge(&b);
+    assert_eq!(a.mean(), 2.5e-308);
+}
